@@ -18,8 +18,8 @@ P = {
          'queue.Queue modelled as a z3 sequence; sorted() with a two-valued key assumed to be a stable partition; ghost predicates PROJ/ALL_OWNED unfolded engine-side; quote-available precondition from the quantifier; raising paths are C15', '4 C04'),
  'C05': ('proof', 'On every path of _execute_order: one quote read at (dt, asset), ask for buys / bid for sells, stamp = broker clock, full quantity, commission = fee model applied to round(price x quantity) and actually charged; percentage model = (c+t)|x| >= 0 and symmetric, zero model = 0.',
          'round() uninterpreted with |r-x|<=1/2, integer, odd; data handler and fee model seen through contract stubs', '4 C05'),
- 'C06': ('exploration', 'Behaviour is pandas (unstack/ffill/sort_index/get_indexer): no contract within a deductive verifier\'s reach decides it. Bounded stand-in: the real CSVDailyBarDataSource/BacktestDataHandler on enumerated bar files (0-4 bars, permutations, missing cells, adjust on/off, two assets) x 31-instant lattice against an independent row-scan spec; exhaustive inside the stated bound in the thorough tier.',
-         'NOT proved; bound stated in the evidence; known finding F10 (header-only CSV)', '4 C06'),
+ 'C06': ('other', 'Deductive part: BacktestDataHandler (first non-NaN source in order, raising source = NaN, bid_ask = (bid, bid), mid = (bid+ask)/2, every source queried at the caller\'s dt) proved for 0-3 sources and all answers. The CSV source itself is pandas (unstack/ffill/sort_index/get_indexer): no contract within a deductive verifier\'s reach decides it. Bounded stand-in: the real CSVDailyBarDataSource/BacktestDataHandler on enumerated bar files (0-4 bars, permutations, missing cells, adjust on/off, two assets) x 31-instant lattice against an independent row-scan spec; exhaustive inside the stated bound in the thorough tier.',
+         'CSV source NOT proved (bounded, four 7-day windows incl. DST switches); known finding F10 (header-only CSV)', '4 C06'),
  'C07': ('other', 'Deductive part: query-time discipline - every data-handler query made by broker.update/_execute_order (and, as they come under contract, sizers/PCM/signals) is at the caller\'s dt (ghost query log). The two-run relation itself is not expressible as a function contract: bounded relational stand-in runs the real session on D and on D with the future rewritten/deleted and compares prefixes bit for bit.',
          'hyperproperty not proved; composition argument in DESIGN.md; bounded by number of markets x cuts', '4 C07'),
  'C08': ('other', 'Conjunction of functional contracts proved elsewhere (C04, C05, C09-C11, C02) plus wiring; end-to-end equality with an independent reference implementation of the documented rules is a bounded stand-in on synthetic markets.',
@@ -30,15 +30,15 @@ P = {
          'floor/isclose/isnan shims; fee family r|x|, 0<=r<=1; known findings F7 (r>1) and F8 (0<sum<=1e-8)', '4 C10'),
  'C11': ('proof', 'Per-asset kernel: integer q with the sign of its weight, truncation toward zero, one-currency-unit maximality, |q|p <= (1+r)|A|; leverage <= 0 and NaN price rejected; Lean lemma gross.',
          'as C10', '4 C11'),
- 'C12': ('exploration', 'Calendar generation is pd.date_range(freq=BDay()): bounded stand-in against an independent datetime calendar (every start date 2015-12-15..2032-03-15 x 16 lengths x start times x flags in the thorough tier).',
-         'NOT proved; per-day event structure of __iter__ is proved when its harness is present (see evidence)', '4 C12'),
- 'C13': ('exploration', 'Schedules are pd.date_range/bdate_range outputs: bounded stand-in over the same calendar window, every weekday, both pre-market flags, and the cross-check that every instant is emitted by the real clock.',
-         'NOT proved', '4 C13'),
- 'C14': ('other', 'Bounded stand-in on real sessions (rebalance instants, fill times, equity dates, allocation table forward fill) plus the proved exchange-hours predicate and account-equity getter; the run-loop trace clauses are proved when the session harness is present (see evidence).',
+ 'C12': ('other', 'Deductive part: for an arbitrary business day the generator yields exactly [pre]? open close [post]? at 00:00/14:30/21:00/23:59 UTC of that day, strictly increasing within and across days, for all four flag combinations; end < start rejected (ValueError) exactly. Calendar generation is pd.date_range(freq=BDay()): bounded stand-in against an independent datetime calendar (every start date 2015-12-15..2032-03-15 x 16 lengths x start times x flags in the thorough tier).',
+         'which dates are business days is NOT proved (bounded); datetime/Timestamp construction through the civil-calendar shim of DESIGN 2.6', '4 C12'),
+ 'C13': ('other', 'Deductive part (loop-free): weekday accepted iff MON..FRI case-insensitively else ValueError; stamp 14:30:00 iff pre-market else 21:00:00 in all three classes. Schedules are pd.date_range/bdate_range outputs: bounded stand-in over the same calendar window, every weekday, both pre-market flags, and the cross-check that every instant is emitted by the real clock.',
+         'schedule dates NOT proved (bounded)', '4 C13'),
+ 'C14': ('other', 'Deductive part: the real run() loop cut at an arbitrary clock event - broker.update(event time) first and once; signals iff given and market close; portfolio construction iff scheduled and not before burn-in; one equity point iff market close and not before burn-in, read after the rebalance; no early exit - for all four signals/burn-in configurations (Lean trace_filter lifts it to the run); exchange-hours predicate; ExecutionHandler/QTS wiring. Bounded stand-in on real sessions for the pandas tables (equity dates, allocation forward fill) and the end-to-end statement.',
          'pandas reindex/ffill tables bounded only', '4 C14'),
  'C15': ('proof', 'Every raise in simulated_broker.py / portfolio.py (and position.py below them): raise condition and documented exception type, and protected state (all cash, holdings incl. accounting fields and marks, pending queues, histories) equal to the pre-state as z3 array equalities from arbitrary pre-states.',
          'known findings F4, F5, F6 (genuine partial updates) are reported and excluded from the discharged count; clocks are not protected state', '4 C15'),
- 'C16': ('other', 'Universe entry rule proved; window definitions (momentum/SMA/volatility numerics through pandas/numpy) by the bounded stand-in; buffer/cadence contracts proved when their harnesses are present (see evidence).',
+ 'C16': ('other', 'Deductive part: universe entry rule; price buffers for all real prices and window contents (window = last N of old ++ [p], other assets/lookbacks untouched, non-positive price rejected, unseen asset starts empty, capacity N+1 for momentum/volatility and N for SMA; asset/lookback configurations enumerated); SignalsCollection.update gives each signal exactly one observation per tracked asset = mid(dt), queried at dt; cadence once per business day at the close from the run loop. Signal numerics (pandas/numpy) by the bounded stand-in.',
          'numeric signal values bounded only', '4 C16'),
  'C17': ('exploration', 'Statistics are pandas/numpy/transcendental: bounded stand-in against pure-Python definitions on business-day curves crossing month/year/ISO-week-53 boundaries; the drawdown loop is proved when its harness is present.',
          'NOT proved', '4 C17'),
